@@ -44,7 +44,7 @@ def run(chk, replay=None):
                 chk.violation("init-index-not-clipped", f"init(starting_eps={eps}, starting_step={step}) gives eps={d['init']['eps']} step={d['init']['step']}, "
                               f"expected saturation to eps={want_eps} step={want_step}", case)
             groups = [("run_eager", "run_jit"), ("run_eager", "rollout_carry"), ("run_eager", "rollout_full_last"),
-                      ("reset_step", "reset_step_jit"), ("reset_step", "run_then_until"), ("reset_step", "override")]
+                      ("reset_step", "reset_step_jit"), ("reset_step", "run_then_until"), ("reset_step", "override"), ("override", "override_stale_seq")]
             for a, b in groups:
                 if a in d and b in d:
                     x = diff(d[a], d[b])
